@@ -13,6 +13,7 @@ func init() {
 	register("chain-replay", chainReplay)
 	register("kmp-check", kmpCheck)
 	register("kmp-run", kmpRun)
+	register("assemble-replay", assembleReplay)
 }
 
 func runKmp(ring [][2]float64) (out [][2]float64, outcome string) {
@@ -188,6 +189,66 @@ func kmpRun(args []string) int {
 		}
 		res, oc := runKmp(pt(v.Ring))
 		out.put(map[string]any{"e": "Dedupe", "ring": v.Ring, "got": lab(res), "out": oc})
+	})
+	return 0
+}
+
+// assembleReplay: TLC's loop configurations (Assemble.tla) through the real dedupeInnersOuters + matchInnersToPolygons,
+// exactly as addPointsAndSnap chains them. input lines {"os":[ring...],"is":[ring...]} (lattice points), output adds "got".
+func assembleReplay(args []string) int {
+	out := newJSONL("-")
+	defer out.close()
+	toF := func(rs [][][2]int) [][][2]float64 {
+		o := make([][][2]float64, len(rs))
+		for i, r := range rs {
+			o[i] = make([][2]float64, len(r))
+			for j, p := range r {
+				o[i][j] = [2]float64{float64(p[0]) + 0.5, float64(p[1]) + 0.5}
+			}
+		}
+		return o
+	}
+	readJSONLines("-", func(line []byte) {
+		var v struct {
+			Os [][][2]int `json:"os"`
+			Is [][][2]int `json:"is"`
+		}
+		if err := json.Unmarshal(line, &v); err != nil {
+			fatal("bad input: %v", err)
+		}
+		got := [][][][2]int{}
+		oc := func() (oc string) {
+			defer func() {
+				if e := recover(); e != nil {
+					oc = "panic: " + panicString(e)
+				}
+			}()
+			no, ni := snap.VerifDedupeInnersOuters(toF(v.Os), toF(v.Is))
+			polys := make([][][][2]float64, len(no))
+			for i := range no {
+				polys[i] = [][][2]float64{no[i]}
+			}
+			res := snap.VerifMatchInnersToPolygons(polys, ni, true)
+			for _, p := range res {
+				pp := [][][2]int{}
+				for _, r := range p {
+					rr := [][2]int{}
+					for _, c := range r {
+						rr = append(rr, [2]int{int(c[0] - 0.5), int(c[1] - 0.5)})
+					}
+					pp = append(pp, rr)
+				}
+				got = append(got, pp)
+			}
+			return "ok"
+		}()
+		if v.Os == nil {
+			v.Os = [][][2]int{}
+		}
+		if v.Is == nil {
+			v.Is = [][][2]int{}
+		}
+		out.put(map[string]any{"os": v.Os, "is": v.Is, "got": got, "out": oc})
 	})
 	return 0
 }
